@@ -420,7 +420,8 @@ func unary(p *parser, _ bool) {
 func intLit(p *parser, _ bool) {
 	v, err := strconv.ParseInt(p.prev.val, 0, 0)
 	if err != nil {
-		panic(err)
+		p.error("invalid int literal")
+		return
 	}
 	switch v {
 	case 0:
@@ -435,7 +436,8 @@ func intLit(p *parser, _ bool) {
 func floatLit(p *parser, _ bool) {
 	v, err := strconv.ParseFloat(p.prev.val, 64)
 	if err != nil {
-		panic(err)
+		p.error("invalid float literal")
+		return
 	}
 	p.emitConst(v)
 }
@@ -443,7 +445,8 @@ func floatLit(p *parser, _ bool) {
 func stringLit(p *parser, _ bool) {
 	s, err := strconv.Unquote(p.prev.val)
 	if err != nil {
-		panic(err)
+		p.error("invalid string literal")
+		return
 	}
 	p.emitConst(s)
 }
